@@ -10,12 +10,15 @@
 (***************************************************************************)
 EXTENDS HbSetOps
 
-Cands(A, k) == {x \in A : x[1] = k}
 WithHash(S, h) == {x \in S : x[5] = h.pos /\ x[6] = h.tag}
-\* a lookup with hash h and "class = k" returned the element with identity rid (-1 = None)
-LookupOK(A, k, h, rid) ==
-  IF rid = -1 THEN WithHash(Cands(A, k), h) = {}          \* must not miss an element inserted with hash h
-  ELSE \E x \in Cands(A, k) : x[2] = rid                   \* must be a stored element satisfying eq
+\* the drivers' (lawful) equality closure: same class AND inserted with the hash now supplied
+CandsH(A, k, h) == WithHash({x \in A : x[1] = k}, h)
+Cands(A, k) == {x \in A : x[1] = k}
+\* a lookup with hash h and that closure returned the element with identity rid (-1 = None)
+LookupOKH(A, k, h, rid) ==
+  IF rid = -1 THEN CandsH(A, k, h) = {}                     \* must not miss an element inserted with hash h
+  ELSE \E x \in CandsH(A, k, h) : x[2] = rid                \* must be a stored element satisfying eq
+LookupOK(A, k, h, rid) == LookupOKH(A, k, h, rid)
 Hit(A, k, rid) == CHOOSE x \in Cands(A, k) : x[2] = rid
 
 AbsTableOp(e, A, pre, h) ==
@@ -82,12 +85,16 @@ AbsTableOp(e, A, pre, h) ==
 (* concrete composition *)
 
 \* HashTable::entry = find_or_find_insert_slot: reserve(1) BEFORE searching, whatever the outcome
-TableEntry(t, k, h, env) == ReserveThenFoFis(t, k, h, env, 0)
+TableEntry(t, k, h, env) ==
+  LET r == Reserve(t, 1, env, 0)
+      acc == {i \in FullIdx(r.t) : r.t.data[i][1] = k /\ r.t.data[i][5] = h.pos /\ r.t.data[i][6] = h.tag}
+  IN IF r.st = "ok" THEN [r |-> r, f |-> FoFisPred(r.t, acc, h)] ELSE [r |-> r, f |-> <<FALSE, -1>>]
 
 TableOp(e, t, h, env) ==
   LET k == e.k
       el == MkElem(k, e.id, e.v, 0, h)
-      fi == IF k >= 0 THEN Find(t, k, h) ELSE -1
+      accIdx == {i \in FullIdx(t) : t.data[i][1] = k /\ t.data[i][5] = h.pos /\ t.data[i][6] = h.tag}
+      fi == IF k >= 0 THEN FindPred(t, accIdx, h) ELSE -1
   IN
   CASE e.op = "t_insert_unique" -> RawInsert(t, el, h, env, 0)
     [] e.op = "t_find" -> R(t, 0, "ok", {})
